@@ -137,13 +137,47 @@ def norm(e):
     return render(e)
 
 
-def fn_term(file, name, qual=None):
+def fn_term(file, name, qual=None, params=None):
+    """`params`: canonical parameter names, by position - the function's own names are renamed to them first, so the
+    term does not depend on what the parameters are called"""
     from astlib import find_fn
 
     fn = find_fn(file, name, qual)
     if fn is None:
         raise TermError("function %s not found in %s" % (name, file))
-    bmap = builders()
+    if params:
+        import alpha
+
+        fn = copy.deepcopy(fn)
+        ps = [i for i in fn["sig"]["inputs"] if not i.get("self")]
+        mp = {}
+        for i_, nm in zip(ps, params):
+            if i_["pat"]["k"] == "PIdent" and i_["pat"]["name"] != nm:
+                mp[i_["pat"]["name"]] = nm
+        if mp:
+            tmp = {a: "__p%d" % i for i, a in enumerate(mp)}
+            alpha.rename(fn["body"], tmp)
+            alpha.rename(fn["body"], {tmp[a]: b for a, b in mp.items()})
+            for i_ in ps:
+                alpha.rename(i_["pat"], tmp)
+                alpha.rename(i_["pat"], {tmp[a]: b for a, b in mp.items()})
+    bmap = dict(builders())
+    # private helpers of the same file are part of the function's own text: inline them as well
+    for q, h in fns_in_file(file):
+        if q or h["name"] == name or h.get("vis") == "pub" or h["name"] in bmap:
+            continue
+        params = []
+        for i in h["sig"]["inputs"]:
+            if i.get("self") or i["pat"]["k"] != "PIdent":
+                params = None
+                break
+            params.append(i["pat"]["name"])
+        if params is None:
+            continue
+        try:
+            bmap[h["name"]] = (params, result_expr(h, {}))
+        except TermError:
+            continue
     t = result_expr(fn, bmap)
     t = inline(t, bmap)
     return norm(t)
